@@ -35,6 +35,8 @@ if|else|while    { return 1; }
 %%
 [a-z]{-}[aeiou]+      { return 1; }
 [a-c]{+}[x-z]         { return 2; }
+[^\x01-\xfd]{+}[0-3]  { return 9; }
+[A-Z]{+}[^\x00-\xfc]   { return 10; }
 [a-z]{-}[m-p]{+}[0-3] { return 3; }
 [^a-z\n]              { return 4; }
 [^\x00-\x7f]+         { return 5; }
@@ -161,7 +163,6 @@ def language_variants(thorough=False):
             for rej in (False, True):
                 if rej and tn.startswith(('Cf', 'CF')): continue       # refused by flex
                 if rej and not thorough and tn not in ('Cem', 'C'): continue
-                if name in ('sc', 'anchors', 'nest') and tn.startswith('CF'): continue    # -CF with a ^ rule does not compile today (D1)
                 opts = ['noyywrap', '8bit'] + topts + (['reject'] if rej else [])
                 spec = ''.join('%%option %s\n' % o for o in opts) + body.lstrip('\n')
                 out.append(variants.Variant('lang_%s_%s%s' % (name, tn, '_rej' if rej else ''), 'nr', (), opts, raw_spec=spec))
